@@ -1,5 +1,6 @@
 (* C17 - names survive prefix mapping (model: Mapper.v, NamespaceMapper in stacked mode). *)
 From XV Require Import Base Mapper MapperProofs.
+From XV Require Collapsed CollapsedProofs.
 
 Theorem C17_set_ctx_inv : forall st obj level decls,
   InvSt st -> InvSt (set_ctx st obj level decls).
@@ -42,3 +43,48 @@ Example C17_shadow_example :
 Proof. vm_compute. repeat split. Qed.
 Example C17_inv_reachable : InvSt st0.
 Proof. split; [intros u p H; discriminate | constructor]. Qed.
+
+(* ---- xmlns processing modes 'collapsed' and 'root-only' (model: Collapsed.v) *)
+Theorem C17_collapsed_keys_resolve : forall c ds ops1 ops2 st1 st2 u l,
+  NoDup (map fst ds) ->
+  Collapsed.run c (Collapsed.init_state ds) ops1 = Some st1 -> Collapsed.run c st1 ops2 = Some st2 ->
+  u <> 0%N ->
+  Collapsed.resolve_key (fst st2) (Collapsed.map_key st1 u l) = Some (u, l).
+Proof. exact CollapsedProofs.keys_resolve_at_end. Qed.
+Print Assumptions C17_collapsed_keys_resolve.
+
+Theorem C17_collapsed_renaming_terminates : forall c ops st, Collapsed.run c st ops <> None.
+Proof. exact CollapsedProofs.run_total. Qed.
+Print Assumptions C17_collapsed_renaming_terminates.
+
+Theorem C17_collapsed_declared_mapped : forall ds ops st lv decls st' p u,
+  NoDup (map fst ds) ->
+  Collapsed.run true (Collapsed.init_state ds) ops = Some st ->
+  Collapsed.elem_step true st (lv, decls) = Some st' ->
+  In (p, u) decls -> u <> 0%N -> Collapsed.rget (snd st') u <> None.
+Proof. exact CollapsedProofs.declared_namespace_is_mapped. Qed.
+Print Assumptions C17_collapsed_declared_mapped.
+
+Theorem C17_collapsed_early_register_refuted : exists n r p u st',
+  Collapsed.Inv (n, r) /\ Collapsed.Cov (n, r) /\ Collapsed.bind_early n r p u = Some st' /\ ~ Collapsed.Inv st'.
+Proof. exact CollapsedProofs.bind_early_refuted. Qed.
+Print Assumptions C17_collapsed_early_register_refuted.
+
+(* known finding F-C17c *)
+Theorem C17_collapsed_bare_name_refuted : exists ds ops st l,
+  Collapsed.run true (Collapsed.init_state ds) ops = Some st /\
+  Collapsed.resolve_key (fst st) (Collapsed.map_key st 0 l) <> Some (0%N, l).
+Proof. exact CollapsedProofs.bare_name_refuted. Qed.
+Print Assumptions C17_collapsed_bare_name_refuted.
+
+(* non-vacuity: root binds p to u1; a child rebinds p to u2 and is renamed to p0; both keys resolve at the end *)
+Example C17_collapsed_example :
+  let ds := [((7, 0), 101)]%N in
+  let ops1 := [(0, ds); (1, [((7, 0), 102)]%N)] in
+  match Collapsed.run true (Collapsed.init_state ds) ops1 with
+  | Some st => Collapsed.map_key st 102 5 = Collapsed.KPre (7, 1)%N 5%N
+               /\ Collapsed.resolve_key (fst st) (Collapsed.map_key st 102 5) = Some (102, 5)%N
+               /\ Collapsed.resolve_key (fst st) (Collapsed.map_key st 101 5) = Some (101, 5)%N
+  | None => False
+  end.
+Proof. vm_compute. repeat split. Qed.
